@@ -110,11 +110,17 @@ def search(ctx):
     cl = cases(ctx) + late_cases(ctx)
     n = 0
     for c, ops, sc, ch, rbo in cl:
-        for pooled_size in (None, 1):
+        for pooled_size in (None, 1, "hash", "hash-pooled"):
             if pooled_size and (c.get("tls") or ops[0][0] == 23):
                 continue
+            if isinstance(pooled_size, str) and ops[0][0] in (15, 16, 24):
+                continue        # HashClient has no version / raw_command / shutdown
             n += 1
-            if pooled_size:
+            if isinstance(pooled_size, str):
+                r = cs.run_impl(c, ops, sc, ch, (), hash_maker(pooled_size == "hash-pooled"), None, rbo)
+                results, world = r[0], r[6]
+                used_after = []
+            elif pooled_size:
                 r = cs.run_pooled(c, (pooled_size, 0), ops, sc, ch, (), (), rbo)
                 results, world, pool = [x[0] for x in r[0]], r[5], r[6]
                 used_after = [x[1] for x in r[0]]
@@ -139,11 +145,18 @@ def search(ctx):
                         why = "call %d after the interruption returned %r, its own reply says %r" % (i, x, exp_ok)
                         break
             if why:
-                found.append({"clause": why, "input": {"class": "PooledClient(max_pool_size=1)" if pooled_size else "Client", "cfg": repr(c), "ops": repr(ops), "script": repr(sc), "choices": repr(ch)},
+                found.append({"clause": why, "input": {"class": {None: "Client", 1: "PooledClient(max_pool_size=1)", "hash": "HashClient", "hash-pooled": "HashClient(use_pooling=True)"}[pooled_size], "cfg": repr(c), "ops": repr(ops), "script": repr(sc), "choices": repr(ch)},
                               "observed": repr(results), "size": len(sc) + len(ch), "case": repr((c, ops, sc, ch, rbo, pooled_size))})
     ctx.search_summary = {"runs_with_tagged_replies": n}
     found.sort(key=lambda v: v["size"])
     return found[:1]
+
+
+def hash_maker(pooling):
+    def mk(server, kw):
+        from pymemcache.client.hash import HashClient
+        return HashClient([server], use_pooling=pooling, max_pool_size=1, retry_attempts=0, dead_timeout=0, **kw)
+    return mk
 
 
 def replay(ctx, obj):
@@ -151,6 +164,10 @@ def replay(ctx, obj):
     if not v or not v.get("case"):
         return None
     c, ops, sc, ch, rbo, ps = eval(v["case"])
+    if isinstance(ps, str):
+        r = cs.run_impl(c, ops, sc, ch, (), hash_maker(ps == "hash-pooled"), None, rbo)
+        print("results", r[0], "foreign reads", r[6].foreign)
+        return bool(r[6].foreign)
     if ps:
         r = cs.run_pooled(c, (ps, 0), ops, sc, ch, (), (), rbo)
         print("results", r[0], "foreign", r[5].foreign)
